@@ -11,4 +11,9 @@ CONSTANTS
   ExtLayouts = {"plain", "tight", "trail"}
   BoundMax = 3
   BoundLayouts = {"plain", "tight", "trail", "oneline"}
+  MultiMax = 3
+  UseMultiLayouts = {"wrap-last", "wrap-earlier", "wrap-all", "fromnl-last", "fromnl-earlier", "fromnl-all", "tailnl-last", "tailnl-earlier", "tailnl-all"}
+  StdMax = 2
+  UseStdClasses = {"Pair", "Triple", "Option", "List"}
+  StdLayouts = {"plain", "tight", "trail", "wrap-last", "fromnl-all"}
 INVARIANTS ReadsBack NewlineFixGood GlueFixGoodIffSeparated GlueOkNeedsSemicolon ApplySane Emit
